@@ -67,7 +67,7 @@ theorem lockstepMid_spec (s1 s2 : P2P) (gh1 : Ghost) (t : TLState) (c1 : Frame) 
 
 /-- One lockstep call: the local inputs go out as queue contents, the spectators are offered the
 next frames up to `min(confirmed, consumed)` as rows of real inputs. -/
-theorem lockstepTick_net (s s' : P2P) (gh : Ghost) (t : TLState) (now : Nat) (reqs' : List Request)
+theorem lockstepTick_netX (s s' : P2P) (gh : Ghost) (t : TLState) (now : Nat) (reqs' : List Request)
     (h : LkInv s gh t) (hg : GlueInv s gh) (hn : 0 ≤ s.nextSpectatorFrame)
     (hadv : s.advanceLockstepFrame now [] = .ok (s', reqs')) :
     ∃ (gh1 gh' : Ghost) (sA sB sC sD : P2P), LkInv s' gh' (execReqs t reqs') ∧ GlueInv s' gh' ∧
@@ -76,7 +76,8 @@ theorem lockstepTick_net (s s' : P2P) (gh : Ghost) (t : TLState) (now : Nat) (re
       sA.lastSentOutgoingInputFrame = s.lastSentOutgoingInputFrame ∧ Sends gh1 now sA sB ∧
       s'.lastSentOutgoingInputFrame = sB.lastSentOutgoingInputFrame ∧
       sC.nextSpectatorFrame = s.nextSpectatorFrame ∧ Offers gh1 s.sync.queues.length now sC sD ∧
-      s'.nextSpectatorFrame = sD.nextSpectatorFrame := by
+      s'.nextSpectatorFrame = sD.nextSpectatorFrame ∧
+      (∀ p, p ∉ s.localPlayerHandles → gh'.specs p = gh.specs p) ∧ s'.handles = s.handles := by
   unfold P2P.advanceLockstepFrame at hadv
   obtain ⟨s1, hreg, hadv⟩ := bind_ok hadv
   obtain ⟨c1, hc1, hadv⟩ := bind_ok hadv
@@ -90,7 +91,7 @@ theorem lockstepTick_net (s s' : P2P) (gh : Ghost) (t : TLState) (now : Nat) (re
   simp only [Prod.mk.injEq] at this
   obtain ⟨hs', hr'⟩ := this
   -- local inputs out
-  obtain ⟨gh1, sA, hinv1, hg1, hk1, hlsA, hsends, hpre⟩ := registerLocalInputs_glue s s1 gh t [] now h.sess hg hreg
+  obtain ⟨gh1, sA, hinv1, hg1, hk1, hlsA, hsends, hpre, hoth⟩ := registerLocalInputs_glueX s s1 gh t [] now h.sess hg hreg
   have hn1 : s1.nextSpectatorFrame = s.nextSpectatorFrame := P2P.registerLocalInputs_nsf _ _ _ hreg
   have hl1 : LkInv s1 gh1 t := by
     refine ⟨hinv1, registerLocalInputs_idle s s1 now h.idle hreg, ?_, ?_⟩
@@ -124,7 +125,7 @@ theorem lockstepTick_net (s s' : P2P) (gh : Ghost) (t : TLState) (now : Nat) (re
   subst hs'
   subst hr'
   refine ⟨gh1, gh2, sA, s1, s2, s3, hl4, GlueInv_transfer s3 _ gh2 gh2 hg3 rfl rfl rfl hq4 rfl, ?_, hsp2, hpre, hlsA, hsends, ?_,
-    hn2.trans hn1, ?_, rfl⟩
+    hn2.trans hn1, ?_, rfl, ?_, ?_⟩
   · show 0 ≤ s3.nextSpectatorFrame
     have : 0 ≤ s2.nextSpectatorFrame := by rw [hn2, hn1]; exact hn
     omega
@@ -132,6 +133,24 @@ theorem lockstepTick_net (s s' : P2P) (gh : Ghost) (t : TLState) (now : Nat) (re
     rw [hls3, hls2]
   · rw [hq2, hk1.nq] at hoff
     exact Offers_specs gh2 gh1 _ now hsp2.symm s2 s3 hoff
+  · intro p hp
+    rw [hsp2]
+    exact hoth p hp
+  · show s3.handles = s.handles
+    rw [hc3.handles, hh2, hk1.handles]
+
+theorem lockstepTick_net (s s' : P2P) (gh : Ghost) (t : TLState) (now : Nat) (reqs' : List Request)
+    (h : LkInv s gh t) (hg : GlueInv s gh) (hn : 0 ≤ s.nextSpectatorFrame)
+    (hadv : s.advanceLockstepFrame now [] = .ok (s', reqs')) :
+    ∃ (gh1 gh' : Ghost) (sA sB sC sD : P2P), LkInv s' gh' (execReqs t reqs') ∧ GlueInv s' gh' ∧
+      0 ≤ s'.nextSpectatorFrame ∧ gh'.specs = gh1.specs ∧
+      (∀ p, PrefixOf (gh.specs p).vals (gh1.specs p).vals) ∧
+      sA.lastSentOutgoingInputFrame = s.lastSentOutgoingInputFrame ∧ Sends gh1 now sA sB ∧
+      s'.lastSentOutgoingInputFrame = sB.lastSentOutgoingInputFrame ∧
+      sC.nextSpectatorFrame = s.nextSpectatorFrame ∧ Offers gh1 s.sync.queues.length now sC sD ∧
+      s'.nextSpectatorFrame = sD.nextSpectatorFrame := by
+  obtain ⟨gh1, gh', sA, sB, sC, sD, a, b, c, d, e, f, g, i, j, k, l, _⟩ := lockstepTick_netX s s' gh t now reqs' h hg hn hadv
+  exact ⟨gh1, gh', sA, sB, sC, sD, a, b, c, d, e, f, g, i, j, k, l⟩
 
 /-- Lockstep invariant, glue invariant and a non-negative spectator cursor. -/
 def LkNetInv (x : P2P × TLState) : Prop :=
